@@ -33,6 +33,8 @@ mod time;
 mod timer;
 mod token;
 mod transaction;
+#[cfg(btdht_verif)]
+pub mod verif;
 
 pub use crate::action::State;
 pub use crate::info_hash::{INFO_HASH_LEN, InfoHash, LengthError, NodeId};
